@@ -399,14 +399,32 @@ def run_qcase(case):
                     r = get(e, d, trace=t)
                     return ON("value", [lval(cx, r)])
                 if dflt[0] == 'const':
-                    # a fresh, unlabelled copy can never be mistaken for a document node
-                    box = [dflt[1]]
+                    # a container default is passed as it is (a fresh copy: identity tells it from every document
+                    # node, and an empty dict / list must reach the library unboxed: C05-m3); a scalar default is
+                    # boxed, because scalars are interned and could not be told from a document value
+                    import copy as _copy
+                    box = _copy.deepcopy(dflt[1]) if isinstance(dflt[1], (list, dict)) else [dflt[1]]
                     r = get(e, d, default=box, trace=t)
+                    if box is not dflt[1] and not isinstance(dflt[1], (list, dict)):
+                        # direct oracle: the same call with the scalar default itself (falsy ones included) must take
+                        # the same branch: the default when the boxed call fell back to it, else the same value
+                        n0 = len(cx.log)
+                        try:
+                            r2 = get(e, d, default=dflt[1])
+                            bad = not (r2 is dflt[1] or (r2 == dflt[1] and type(r2) is type(dflt[1]))) if r is box else (r2 is not r and not (r2 == r and type(r2) is type(r)))
+                        except BaseException as x:  # noqa
+                            if isinstance(x, (KeyboardInterrupt, SystemExit, MemoryError)):
+                                raise
+                            bad = True
+                        del cx.log[n0:]
+                        if bad:
+                            return ON("RAW-DEFAULT-DIFFERS", [lval(cx, dflt[1])])
                     if r is box:
                         return ON("default", [lval(cx, dflt[1])])
                     return ON("value", [lval(cx, r)])
                 # callable default
-                box = [dflt[2]]
+                import copy as _copy
+                box = _copy.deepcopy(dflt[2]) if isinstance(dflt[2], (list, dict)) else [dflt[2]]
 
                 def dcall():
                     cx.log.append(ON("callf", [OZ(dflt[1]), ON("null")]))
